@@ -318,6 +318,7 @@ def table(tier="quick"):
     # ------------------------------------------------------------------ CP tensor utilities, tensor algebra
     add("cp_normalize", "tensorly.cp_tensor.cp_normalize", lambda d: (lambda i=cpinit(d): cpt.cp_normalize(i)), fam="FCpNormalize", dts=ALL3, real={".weights"})
     add("cp_flip_sign", "tensorly.cp_tensor.cp_flip_sign", lambda d: (lambda i=cpinit(d): cpt.cp_flip_sign(i)), fam="FFlipSign", dts=ALL3, real={".weights"})
+    add("cp_flip_sign_no_weights", "tensorly.cp_tensor.cp_flip_sign", lambda d: (lambda i=cpinit(d): cpt.cp_flip_sign((None, i[1]))), fam="FFlipSign", dts=ALL3, real={".weights"})
     add("cp_permute_factors", "tensorly.cp_tensor.cp_permute_factors",
         lambda d: (lambda i=cpinit(d): cpt.cp_permute_factors(CPTensor(i), [CPTensor((i[0].copy(), [f[:, ::-1].copy() for f in i[1]]))])), fam="FPermute",
         exempt={"#1": "permutation indices"})
@@ -564,7 +565,7 @@ def random_rows(rng, n):
                 X = d.arr(*sh)
                 ini = (np.ones(rank, dtype=d.dt), [d.arr(s_, rank) for s_ in sh]) if init == "user" else init
                 return lambda: dec.non_negative_parafac_hals(X, rank, n_iter_max=3, init=ini, normalize_factors=norm, return_errors=errors, random_state=1 + i,
-                                                            sparsity_coefficients=[0.1] * len(sh) if i % 2 else None, exact=bool(i % 3 == 0))
+                                                            sparsity_coefficients=[0.1] * len(sh) if i % 2 else None)
             add(f"rnd{i}_nn_hals_{init}_nz{int(norm)}_er{int(errors)}_{'x'.join(map(str, sh))}_r{rank}", "tensorly.decomposition.non_negative_parafac_hals",
                 build, "FNNParafacHals", opts, None, [dt_real], real={"#1"})
         elif kind == "tucker":
@@ -668,6 +669,954 @@ def arrays_of(o, path="", top=True):
     elif isinstance(o, dict):
         for k, x in o.items():
             yield from arrays_of(x, f"{path}.{k}", False)
+
+
+# ============================================================================= source-level extraction (py2dt)
+# Translation of the Python source (ast) of every TensorLy function into a dtype program of Model/Dtype.v, regenerated on every run
+# and checked inside Coq with the tolerant program check prog_ok2 (Theorem C18_prog2_precision_preserved).  Expressions on the Python
+# side: None = opaque / not a value; ('leaf', L) | ('var', name) | ('op', a, b) | ('div', a, b) | ('tofloat', a) | ('real', a) |
+# ('into', target, value) | ('dtypeof', a) | ('dtconst', D).
+import ast as ast
+
+BARE = ("leaf", "LBare"); PYI = ("leaf", "LPyI"); PYF = ("leaf", "LPyF"); PYC = ("leaf", "LPyC")
+INTS = ("leaf", "(LConst I64)"); BOOLS = ("leaf", "(LConst B)"); LIN = ("leaf", "LIn"); LMASK = ("leaf", "LMask")
+DTCONST = {"float64": "F64", "float32": "F32", "int64": "I64", "int32": "I64", "int": "I64", "bool": "B", "complex128": "C128", "complex64": "C64", "float": "F64"}
+INT_PARAMS = {"rank", "n_samples", "mode", "modes", "n_iter_max", "n_iter_max_inner", "order", "n_const", "n_eigenvecs", "shape", "shapes", "n_repeat", "n_iteration", "n_iter",
+              "skip_matrix", "skip", "axis", "k", "n_padding", "max_stagnation", "size", "n_dims", "n_components", "random_state", "seed", "verbose", "indices", "indices_list",
+              "slice_idx", "n_iter_parafac", "svd_mask_repeats", "n_iter_mask_imputation", "max_fail", "iteration", "n_dim", "n_dimensions", "fixed_modes", "nn_modes", "fixed_factors",
+              "tensor_shape", "n_oversamples", "n_power_iterations", "n_eigen", "n_unfoldings", "threshold_k", "weight_rank", "weight_ranks", "batched_modes", "row_modes", "column_modes",
+              "n_modes", "n_matrices", "skip_factor", "start", "ranks", "tensorized_shape"}
+FLOAT_PARAMS = {"threshold", "regularizer", "reg", "parameter", "tol", "lr", "alpha", "scale", "jump", "tol_outer", "tol_inner", "epsilon", "reg_W", "reg_E", "reg_J", "learning_rate",
+                "mu_init", "mu_max", "sparsity_coef", "ridge_coef", "sparsity_coefficient", "ridge_coefficient", "l2_reg", "l1_reg", "acc_pow", "delta", "eps", "bound", "percent",
+                "compression_threshold"}
+ARRAY_OPT = {"x", "V", "init", "weights", "U", "x_init", "dual", "projected_tensor", "norm_matrices", "mttkrp", "factors_last", "weights_last", "sparse_component", "y", "Y"}
+MAINLOOP_TARGETS = {"iteration", "_", "it", "epoch", "n_iter_", "i_iter", "component"}
+UNARY_FLOAT = {"sqrt", "mean", "exp", "log", "log2", "log10", "sin", "cos", "tan", "tanh", "sinh", "cosh", "arcsin", "arccos", "arctan", "arcsinh", "arccosh", "arctanh", "asin",
+               "acos", "atan", "asinh", "acosh", "atanh", "digamma", "logsumexp", "std", "var"}
+ALLOC = {"zeros", "ones", "eye", "empty", "full", "identity"}
+LIKE = {"zeros_like", "ones_like", "copy", "empty_like", "full_like", "to_numpy"}
+PYINT = {"shape", "ndim", "len", "range", "int", "round", "index", "tolist", "count", "find", "ord", "hash", "get_backend"}   # Python ints: weak
+TOINT = {"arange", "argmax", "argmin", "argsort", "randint", "permutation", "choice", "nonzero", "unique", "prod", "ceil", "floor",
+         "count_nonzero", "searchsorted", "cumprod", "linear_sum_assignment", "digitize", "bincount", "lexsort"}               # int64 arrays / NumPy integer scalars: strong
+TOBOOL = {"all", "any", "isnan", "isinf", "is_tensor", "isinstance", "callable", "hasattr", "isfinite", "issubclass", "allclose", "array_equal"}
+RNG_FLOAT = {"random_sample", "rand", "randn", "normal", "uniform", "gamma", "standard_normal", "random", "beta", "exponential"}
+RNG_NAMES = {"rng", "rns", "random_state", "random"}
+OPAQUE_CALLS = {"check_random_state", "RandomState", "default_rng", "warn", "print", "DeprecationWarning", "ValueError", "TypeError", "get_backend", "format", "join", "str", "repr",
+                "type", "validate_cp_rank", "validate_tucker_rank", "validate_tt_rank", "validate_tr_rank", "svd_checks", "validate_constraints", "id", "set", "dict", "getattr"}
+MODULES = {"tl", "T", "np", "tenalg", "math", "warnings", "scipy", "tensorly", "backend"}
+
+
+def weak_only(e):
+    if e is None:
+        return False
+    if e[0] == "leaf":
+        return e[1] in ("LPyI", "LPyF", "LPyC")
+    if e[0] in ("op", "div"):
+        return weak_only(e[1]) and weak_only(e[2])
+    if e[0] in ("tofloat", "real"):
+        return weak_only(e[1])
+    return False
+
+
+def has_pyf(e):
+    if e is None:
+        return False
+    if e[0] == "leaf":
+        return e[1] in ("LPyF", "LPyC")
+    return any(has_pyf(x) for x in e[1:] if isinstance(x, tuple))
+
+
+def weaklike(e, weakvars):
+    if e is None:
+        return False
+    if e[0] == "leaf":
+        return e[1] in ("LPyI", "LPyF", "LPyC")
+    if e[0] == "var":
+        return e[1] in weakvars
+    if e[0] == "into":
+        return weaklike(e[1], weakvars)
+    return all(weaklike(y, weakvars) for y in e[1:] if isinstance(y, tuple))
+
+
+def idxlike(e, intvars, weakvars=frozenset()):
+    """an index / shape / boolean-mask valued expression: only integer / boolean constants, Python ints and variables known to hold such values"""
+    if e is None:
+        return False
+    strong = [False]
+
+    def go(x):
+        if x[0] == "leaf":
+            if x[1] in ("(LConst I64)", "(LConst B)"):
+                strong[0] = True; return True
+            return x[1] == "LPyI"
+        if x[0] == "var":
+            if x[1] in intvars:
+                strong[0] = True; return True
+            return x[1] in weakvars
+        if x[0] == "into":
+            return go(x[1])
+        return all(go(y) for y in x[1:] if isinstance(y, tuple))
+    return go(e) and strong[0]
+
+
+def join(a, b):
+    if a is None or a[0] in ("dtypeof", "dtconst"):
+        return b if (b is None or b[0] not in ("dtypeof", "dtconst")) else None
+    if b is None or b[0] in ("dtypeof", "dtconst"):
+        return a
+    if a == b:
+        return a
+    return ("op", a, b)
+
+
+def joinlist(xs):
+    r = None
+    for x in xs:
+        r = join(r, x)
+    return r
+
+
+class Unsupported(Exception):
+    pass
+
+
+class Translator:
+    def __init__(self, fn, qual):
+        self.fn, self.qual = fn, qual
+        self.defined, self.empty = set(), set()
+        self.subst = {}
+        self.out = []          # emitted statements (name, expr)
+        self.tmp = 0
+        self.rets = []         # names of return variables
+        self.rename = None     # post-loop renaming map (name -> post name) or None
+        self.notes = []
+        self.path, self.seen = [], {}
+        self.intvars = set()
+        self.weakvars = set()
+
+    # ---- helpers
+    def fresh(self, base, node=None, extra=""):
+        pos = f"{getattr(node, 'lineno', 0)}:{getattr(node, 'col_offset', 0)}" if node is not None else "0"
+        nm = f"%{base}@{pos}/{'.'.join(map(str, self.path))}{extra}"
+        k = self.seen.get(nm, 0); self.seen[nm] = k + 1
+        return nm if k == 0 else f"{nm}~{k}"
+
+    def rd(self, name):
+        if name in self.subst:
+            return self.subst[name]
+        if self.rename is not None and name in self.rename:
+            return ("var", self.rename[name])
+        if name in self.defined:
+            return ("var", name)
+        return None
+
+    def wr(self, name, e):
+        if self.rename is not None:
+            self.rename[name] = pn = "post." + name
+            name = pn
+        if e is None or e[0] in ("dtypeof", "dtconst"):
+            # opaque value: the variable no longer holds an array
+            self.defined.discard(name)
+            if self.rename is not None:
+                # an opaque post value shadows the loop variable
+                self.out.append((name, BOOLS)); self.defined.add(name)
+            return
+        self.out.append((name, e))
+        self.defined.add(name)
+        self.empty.discard(name)
+        (self.intvars.add if idxlike(e, self.intvars, self.weakvars) else self.intvars.discard)(name)
+        (self.weakvars.add if weaklike(e, self.weakvars) else self.weakvars.discard)(name)
+
+    # ---- expressions
+    def dotted(self, node):
+        if isinstance(node, ast.Name):
+            return [node.id]
+        if isinstance(node, ast.Attribute):
+            b = self.dotted(node.value)
+            return None if b is None else b + [node.attr]
+        return None
+
+    def ex(self, n):
+        if n is None:
+            return None
+        if isinstance(n, ast.Constant):
+            v = n.value
+            if isinstance(v, bool) or v is None or isinstance(v, (str, bytes)) or v is Ellipsis:
+                return None
+            return PYI if isinstance(v, int) else PYF if isinstance(v, float) else PYC
+        if isinstance(n, ast.Name):
+            return self.rd(n.id)
+        if isinstance(n, ast.Attribute):
+            d = self.dotted(n)
+            if d and d[0] in MODULES and d[0] not in self.defined:
+                if n.attr in DTCONST:
+                    return ("dtconst", DTCONST[n.attr])
+                if n.attr in ("inf", "pi", "e", "nan", "newaxis"):
+                    return PYF if n.attr != "newaxis" else None
+                return None
+            if d and d[0] == "self":
+                return self.rd(".".join(d))
+            base = self.ex(n.value)
+            if n.attr in ("shape", "ndim", "size", "rank"):
+                return PYI
+            if n.attr == "dtype":
+                return ("dtypeof", base) if base is not None else None
+            if n.attr in ("real", "imag"):
+                return ("real", base) if base is not None else None
+            return base      # .T, .factors, .weights, .core ...
+        if isinstance(n, ast.Subscript):
+            return self.ex(n.value)
+        if isinstance(n, ast.BinOp):
+            if isinstance(n.left, (ast.List, ast.Tuple)):
+                return self.ex(n.left)            # [x] * n: list replication
+            if isinstance(n.right, (ast.List, ast.Tuple)):
+                return self.ex(n.right)
+            a, b = self.ex(n.left), self.ex(n.right)
+            if a is None or b is None or a[0] in ("dtypeof", "dtconst") or b[0] in ("dtypeof", "dtconst"):
+                return join(a, b)
+            return ("div", a, b) if isinstance(n.op, ast.Div) else ("op", a, b)
+        if isinstance(n, ast.UnaryOp):
+            return BOOLS if isinstance(n.op, ast.Not) else self.ex(n.operand)
+        if isinstance(n, ast.BoolOp):
+            return joinlist([self.ex(v) for v in n.values])
+        if isinstance(n, ast.Compare):
+            self.ex(n.left)
+            return BOOLS
+        if isinstance(n, ast.IfExp):
+            return join(self.ex(n.body), self.ex(n.orelse))
+        if isinstance(n, (ast.Tuple, ast.List, ast.Set)):
+            return joinlist([self.ex(e) for e in n.elts])
+        if isinstance(n, ast.Dict):
+            return joinlist([self.ex(e) for e in n.values])
+        if isinstance(n, ast.Starred):
+            return self.ex(n.value)
+        if isinstance(n, (ast.ListComp, ast.GeneratorExp, ast.SetComp)):
+            saved = dict(self.subst)
+            for g in n.generators:
+                self.bind_target(g.target, g.iter, symbolic=True)
+            r = self.ex(n.elt)
+            self.subst = saved
+            return r
+        if isinstance(n, ast.DictComp):
+            saved = dict(self.subst)
+            for g in n.generators:
+                self.bind_target(g.target, g.iter, symbolic=True)
+            r = self.ex(n.value)
+            self.subst = saved
+            return r
+        if isinstance(n, ast.Call):
+            return self.call(n)
+        if isinstance(n, (ast.Lambda, ast.JoinedStr, ast.Slice, ast.FormattedValue)):
+            return None
+        if isinstance(n, ast.NamedExpr):
+            v = self.ex(n.value); self.wr(n.target.id, v); return v
+        raise Unsupported(type(n).__name__)
+
+    def iter_elem(self, it):
+        """expression of an element of the iterable `it` (ast); list of expressions for zip / enumerate"""
+        if isinstance(it, ast.Call):
+            d = self.dotted(it.func)
+            nm = d[-1] if d else None
+            if nm == "range":
+                return PYI
+            if nm == "enumerate":
+                return [PYI, self.iter_elem(it.args[0])]
+            if nm == "zip":
+                return [self.iter_elem(a) for a in it.args]
+            if nm in ("reversed", "sorted", "list", "tuple", "iter"):
+                return self.iter_elem(it.args[0])
+        return self.ex(it)
+
+    def bind_target(self, tgt, it, symbolic):
+        el = self.iter_elem(it)
+        self.bind(tgt, el, symbolic)
+
+    def bind(self, tgt, el, symbolic):
+        if isinstance(tgt, ast.Name):
+            v = joinlist(self.flat(el)) if isinstance(el, list) else el
+            if symbolic:
+                self.subst[tgt.id] = v
+            else:
+                self.wr(tgt.id, v)
+        elif isinstance(tgt, (ast.Tuple, ast.List)):
+            if isinstance(el, list) and len(el) == len(tgt.elts):
+                for t, e in zip(tgt.elts, el):
+                    self.bind(t, e, symbolic)
+            else:
+                for t in tgt.elts:
+                    self.bind(t, el, symbolic)
+        elif isinstance(tgt, ast.Starred):
+            self.bind(tgt.value, el, symbolic)
+        else:
+            self.assign(tgt, joinlist(self.flat(el)) if isinstance(el, list) else el)
+
+    def flat(self, el):
+        out = []
+        for e in el:
+            out += self.flat(e) if isinstance(e, list) else [e]
+        return out
+
+    def carrier(self, call):
+        """the dtype carrier of **tl.context(x) / **context / dtype=x.dtype, a dtype constant, or None"""
+        for kw in call.keywords:
+            if kw.arg is None:
+                v = kw.value
+                if isinstance(v, ast.Call):
+                    d = self.dotted(v.func)
+                    if d and d[-1] == "context" and v.args:
+                        return self.ex(v.args[0])
+                e = self.ex(v)
+                if e is not None:
+                    return e
+            elif kw.arg == "dtype":
+                e = self.ex(kw.value)
+                if e is None:
+                    if isinstance(kw.value, ast.Name) and kw.value.id in DTCONST:
+                        return ("dtconst", DTCONST[kw.value.id])
+                    return None
+                return e[1] if e[0] == "dtypeof" else e
+        return None
+
+    def call(self, n):
+        d = self.dotted(n.func)
+        base_expr = None
+        if d is None and isinstance(n.func, ast.Attribute):
+            base_expr = self.ex(n.func.value); A = n.func.attr
+        elif d is None:
+            self.ex(n.func); A = None
+        else:
+            A = d[-1]
+            if len(d) > 1 and d[0] not in MODULES and (d[0] in self.defined or d[0] in self.subst or (self.rename and d[0] in self.rename) or d[0] == "self"):
+                base_expr = self.ex(n.func.value)
+        args = [self.ex(a) for a in n.args]
+        kws = {kw.arg: self.ex(kw.value) for kw in n.keywords if kw.arg is not None and kw.arg != "dtype"}
+        car = self.carrier(n)
+        a0 = args[0] if args else None
+        isrng = bool(d) and len(d) > 1 and (d[-2] in RNG_NAMES) and not (A or "").startswith("random_")
+        if isrng:
+            return BARE if A in RNG_FLOAT else INTS if A in TOINT else None
+        if A in OPAQUE_CALLS:
+            return None
+        if A == "context":
+            return a0
+        if A in ALLOC or (A is not None and (A.startswith("random_") or A in ("randn", "gamma")) and base_expr is None):
+            # allocations and the library's random generators: the dtype comes from **context / dtype= alone
+            if car is not None:
+                return ("leaf", f"(LConst {car[1]})") if car[0] == "dtconst" else ("into", car, BARE)
+            return BARE
+        if A in LIKE and base_expr is None:
+            if car is not None and car[0] != "dtconst":
+                return ("into", car, a0 if a0 is not None else BARE)
+            return a0
+        if A in ("tensor", "array", "asarray", "as_tensor", "ascontiguousarray") and base_expr is None:
+            if car is not None:
+                return ("leaf", f"(LConst {car[1]})") if car[0] == "dtconst" else ("into", car, a0 if a0 is not None else BARE)
+            if a0 is None:
+                return BARE if n.args and isinstance(n.args[0], ast.Call) else None
+            if weak_only(a0):
+                return ("leaf", "(LConst F64)") if has_pyf(a0) else INTS
+            if weaklike(a0, self.weakvars):
+                return BARE          # np.array(python scalar): float64 (or int64), never the data's single precision
+            return a0
+        if A in ("float64", "float_"):
+            return ("leaf", "(LConst F64)")
+        if A == "float32":
+            return ("leaf", "(LConst F32)")
+        if A in ("int64", "int32", "intp"):
+            return INTS
+        if A == "float":
+            return PYF
+        if A == "complex":
+            return PYC
+        if A in ("eps", "finfo"):
+            a = args[0] if args else None
+            if a is not None and a[0] == "dtypeof":
+                return ("into", a[1], PYF)
+            if a is not None and a[0] == "dtconst":
+                return ("leaf", f"(LConst {a[1]})")
+            return PYF
+        if d and d[0] == "math":
+            return PYF
+        if A in PYINT and base_expr is None:
+            return PYI
+        if A in TOINT and base_expr is None:
+            return INTS
+        if A in TOBOOL:
+            return BOOLS
+        if A in ("abs", "norm"):
+            x = a0 if base_expr is None else base_expr
+            return ("real", x) if x is not None else None
+        if A in UNARY_FLOAT:
+            x = a0 if base_expr is None else base_expr
+            return ("tofloat", x) if x is not None else None
+        if A == "index_update":
+            tgt, val = (args + [None, None, None])[0], (args + [None, None, None])[2]
+            return ("into", tgt, val if val is not None else PYI) if tgt is not None else None
+        if A == "where":
+            return join(args[1], args[2]) if len(args) == 3 else INTS
+        if A == "astype" and base_expr is not None:
+            a = a0 if args else None
+            if a is None and n.args and isinstance(n.args[0], ast.Name) and n.args[0].id in DTCONST:
+                a = ("dtconst", DTCONST[n.args[0].id])
+            if a is not None and a[0] == "dtypeof":
+                return ("into", a[1], base_expr)
+            if a is not None and a[0] == "dtconst":
+                return ("leaf", f"(LConst {a[1]})")
+            return base_expr
+        if A == "item":
+            return PYF
+        if A == "sum" and d == ["sum"]:
+            return join(PYI, joinlist(args))
+        # default: promotion of everything that goes in (modular summary of the callee / NumPy promotion); index / shape / boolean-mask
+        # arguments select entries, they do not take part in the arithmetic
+        ins = [x for x in [base_expr] + args + list(kws.values()) if x is not None and not idxlike(x, self.intvars, self.weakvars)]
+        if not ins:
+            return joinlist([base_expr] + args + list(kws.values()))
+        return joinlist(ins)
+
+    # ---- statements
+    def assign(self, tgt, e):
+        if isinstance(tgt, ast.Name):
+            self.wr(tgt.id, e)
+        elif isinstance(tgt, ast.Subscript):
+            b = tgt.value
+            simple = isinstance(tgt.slice, (ast.Name, ast.Constant, ast.UnaryOp, ast.BinOp, ast.Attribute)) and not isinstance(b, ast.Subscript)
+            while isinstance(b, ast.Subscript):
+                b = b.value
+            cur = self.ex(b)
+            nm = ".".join(self.dotted(b)) if self.dotted(b) else None
+            if nm is None:
+                return
+            if cur is None or nm in self.empty:
+                self.wr(nm, e)       # first element of an untracked / empty list
+            elif e is None:
+                self.wr(nm, cur)
+            elif simple or self.is_listvar(nm):
+                # x[i] = v: an element of a list of arrays (or a row of an array): the variable stands for all elements -> promotion
+                self.wr(nm, join(cur, e))
+            else:
+                # x[i, :] = v / x[mask] = v / x[a:b] = v: in-place write, the dtype of the target array is kept
+                self.wr(nm, ("into", cur, e))
+        elif isinstance(tgt, ast.Attribute):
+            d = self.dotted(tgt)
+            if d:
+                self.wr(".".join(d), e)
+        elif isinstance(tgt, (ast.Tuple, ast.List)):
+            for t in tgt.elts:
+                self.assign(t, e)
+        elif isinstance(tgt, ast.Starred):
+            self.assign(tgt.value, e)
+        else:
+            raise Unsupported("target " + type(tgt).__name__)
+
+    def is_listvar(self, nm):
+        return nm in self.listvars
+
+    def assigned_names(self, stmts):
+        out = set()
+        for s in stmts:
+            for node in ast.walk(s):
+                if isinstance(node, (ast.Assign, ast.AugAssign, ast.AnnAssign)):
+                    tg = node.targets if isinstance(node, ast.Assign) else [node.target]
+                    for t in tg:
+                        for x in ast.walk(t):
+                            if isinstance(x, ast.Name) and isinstance(x.ctx, ast.Store):
+                                out.add(x.id)
+                            elif isinstance(x, ast.Subscript):
+                                dd = self.dotted(x.value)
+                                if dd:
+                                    out.add(".".join(dd))
+                            elif isinstance(x, ast.Attribute) and isinstance(x.ctx, ast.Store):
+                                dd = self.dotted(x)
+                                if dd:
+                                    out.add(".".join(dd))
+                elif isinstance(node, (ast.For, ast.comprehension)):
+                    for x in ast.walk(node.target):
+                        if isinstance(x, ast.Name):
+                            out.add(x.id)
+                elif isinstance(node, ast.Call) and isinstance(node.func, ast.Attribute) and node.func.attr in ("append", "insert", "extend", "pop", "remove"):
+                    dd = self.dotted(node.func.value)
+                    if dd:
+                        out.add(".".join(dd))
+        return out
+
+    def cur(self, name):
+        return self.rd(name)
+
+    def branches(self, blocks, node=None, none_at=None):
+        """join semantics for alternative blocks: every variable assigned in some block ends as the promotion of its values over
+        all alternatives (an alternative that does not assign it contributes the value before)"""
+        names = sorted(set().union(*[self.assigned_names(b) for b in blocks]) | {x for l in (none_at or []) for x in l})
+        pre = {}
+        for nm in names:
+            c = self.cur(nm)
+            if c is not None:
+                t = self.fresh("pre", node, ":" + nm); self.out.append((t, c)); self.defined.add(t); pre[nm] = t
+                if idxlike(c, self.intvars, self.weakvars): self.intvars.add(t)
+                if weaklike(c, self.weakvars): self.weakvars.add(t)
+        pre_empty = set(self.empty)
+        results = []
+        for bi, b in enumerate(blocks):
+            # restore the state before the alternatives
+            for nm in names:
+                if nm in pre:
+                    self.wr_raw(nm, ("var", pre[nm]))
+                else:
+                    self.undefine(nm)
+            self.empty = set(pre_empty)
+            for nm in (none_at[bi] if none_at else []):
+                self.undefine(nm)
+            self.block(b)
+            res = {}
+            for nm in names:
+                c = self.cur(nm)
+                if c is not None:
+                    t = self.fresh("alt", node, f":{bi}:" + nm); self.out.append((t, c)); self.defined.add(t); res[nm] = t
+                    if idxlike(c, self.intvars, self.weakvars): self.intvars.add(t)
+                    if weaklike(c, self.weakvars): self.weakvars.add(t)
+                if weaklike(c, self.weakvars): self.weakvars.add(t)
+            results.append((res, set(self.empty)))
+        for nm in names:
+            vals = [("var", r[nm]) for r, _ in results if nm in r]
+            if vals:
+                self.wr_raw(nm, joinlist(vals))
+            else:
+                self.undefine(nm)
+        self.empty = set.intersection(*[e for _, e in results]) if results else pre_empty
+
+    def wr_raw(self, name, e):
+        if self.rename is not None and name in self.rename:
+            name = self.rename[name]
+        elif self.rename is not None:
+            self.rename[name] = "post." + name; name = "post." + name
+        self.out.append((name, e)); self.defined.add(name)
+        (self.intvars.add if idxlike(e, self.intvars, self.weakvars) else self.intvars.discard)(name)
+        (self.weakvars.add if weaklike(e, self.weakvars) else self.weakvars.discard)(name)
+        (self.weakvars.add if weaklike(e, self.weakvars) else self.weakvars.discard)(name)
+
+    def undefine(self, name):
+        if self.rename is not None and name in self.rename:
+            self.defined.discard(self.rename[name]); del self.rename[name]
+        elif self.rename is None:
+            self.defined.discard(name)
+
+    def stmt(self, s):
+        if isinstance(s, ast.Expr):
+            v = s.value
+            if isinstance(v, ast.Call) and isinstance(v.func, ast.Attribute) and v.func.attr in ("append", "extend", "insert"):
+                dd = self.dotted(v.func.value)
+                if dd:
+                    nm = ".".join(dd)
+                    e = self.ex(v.args[-1]) if v.args else None
+                    c = self.cur(nm)
+                    self.listvars.add(nm)
+                    if nm in self.empty or c is None:
+                        self.wr(nm, e)
+                    else:
+                        self.wr(nm, join(c, e))
+                    return
+            if isinstance(v, ast.Call):
+                self.ex(v)
+            return
+        if isinstance(s, ast.Assign):
+            if isinstance(s.value, (ast.List, ast.Tuple)) and not s.value.elts and len(s.targets) == 1 and isinstance(s.targets[0], ast.Name):
+                nm = s.targets[0].id
+                self.undefine(nm) if self.rename is None else None
+                self.defined.discard(nm); self.empty.add(nm); self.listvars.add(nm)
+                return
+            if (isinstance(s.value, (ast.ListComp, ast.List)) or (isinstance(s.value, ast.BinOp) and isinstance(s.value.left, (ast.List, ast.Tuple)))) \
+                    and len(s.targets) == 1 and isinstance(s.targets[0], ast.Name):
+                self.listvars.add(s.targets[0].id)
+            if len(s.targets) == 1 and isinstance(s.targets[0], (ast.Tuple, ast.List)) and isinstance(s.value, (ast.Tuple, ast.List)) \
+                    and len(s.targets[0].elts) == len(s.value.elts):
+                vals = [self.ex(v) for v in s.value.elts]
+                for t, v in zip(s.targets[0].elts, vals):
+                    self.assign(t, v)
+                return
+            e = self.ex(s.value)
+            for t in s.targets:
+                self.assign(t, e)
+            return
+        if isinstance(s, ast.AnnAssign):
+            if s.value is not None:
+                self.assign(s.target, self.ex(s.value))
+            return
+        if isinstance(s, ast.AugAssign):
+            cur = self.ex(s.target if not isinstance(s.target, ast.Name) else ast.Name(id=s.target.id, ctx=ast.Load()))
+            e = self.ex(s.value)
+            if cur is None or e is None:
+                new = join(cur, e)
+            else:
+                new = ("div", cur, e) if isinstance(s.op, ast.Div) else ("op", cur, e)
+            self.assign(s.target, new)
+            return
+        if isinstance(s, ast.Return):
+            if s.value is None:
+                return
+            vals = [s.value] if not isinstance(s.value, ast.Tuple) else list(s.value.elts)
+            for v in vals:
+                e = self.ex(v)
+                if e is None or e[0] in ("dtypeof", "dtconst") or idxlike(e, self.intvars, self.weakvars) or weaklike(e, self.weakvars):
+                    continue          # not an array of the numeric context (None, index / count outputs, Python scalars)
+                r = self.fresh("ret", v)
+                self.out.append((r, e)); self.defined.add(r); self.rets.append(r)
+            return
+        if isinstance(s, ast.If):
+            self.ex(s.test)
+            none_then, none_else = [], []
+            t = s.test
+            if isinstance(t, ast.Compare) and len(t.ops) == 1 and isinstance(t.comparators[0], ast.Constant) and t.comparators[0].value is None \
+                    and isinstance(t.left, ast.Name):
+                (none_then if isinstance(t.ops[0], (ast.Is, ast.Eq)) else none_else).append(t.left.id)
+            self.branches([s.body, s.orelse], s, none_at=[none_then, none_else])
+            return
+        if isinstance(s, (ast.For, ast.While)):
+            for u in range(2):
+                self.path.append(u)
+                if isinstance(s, ast.For):
+                    self.bind_target(s.target, s.iter, symbolic=False)
+                else:
+                    self.ex(s.test)
+                self.block(s.body)
+                self.path.pop()
+            self.block(s.orelse)
+            return
+        if isinstance(s, ast.Try):
+            self.branches([s.body + s.orelse] + [s.body + h.body for h in s.handlers], s)
+            self.block(s.finalbody)
+            return
+        if isinstance(s, ast.With):
+            self.block(s.body)
+            return
+        if isinstance(s, (ast.Pass, ast.Break, ast.Continue, ast.Raise, ast.Assert, ast.Import, ast.ImportFrom, ast.Global, ast.Nonlocal, ast.Delete)):
+            return
+        if isinstance(s, (ast.FunctionDef, ast.ClassDef)):
+            self.notes.append("nested definition " + s.name + " treated as opaque")
+            return
+        raise Unsupported(type(s).__name__)
+
+    def block(self, stmts):
+        for s in stmts:
+            self.stmt(s)
+
+    # ---- whole function
+    def params(self):
+        a = self.fn.args
+        pos = a.posonlyargs + a.args
+        defaults = [None] * (len(pos) - len(a.defaults)) + list(a.defaults)
+        for p, dflt in list(zip(pos, defaults)) + list(zip(a.kwonlyargs, a.kw_defaults)):
+            nm = p.arg
+            if nm in ("self", "cls"):
+                continue
+            if nm == "mask":
+                e = LMASK
+            elif nm in INT_PARAMS:
+                e = PYI
+            elif nm in FLOAT_PARAMS:
+                e = PYF
+            elif dflt is None:
+                e = LIN
+            elif isinstance(dflt, ast.Constant):
+                v = dflt.value
+                if isinstance(v, bool) or isinstance(v, str):
+                    e = None
+                elif v is None:
+                    e = LIN if nm in ARRAY_OPT else None
+                elif isinstance(v, int):
+                    e = PYI
+                elif isinstance(v, float):
+                    e = PYF
+                else:
+                    e = None
+            else:
+                e = None
+            if e is not None:
+                self.wr(nm, e)
+        if a.kwarg is not None and a.kwarg.arg in ("context", "ctx"):
+            self.wr(a.kwarg.arg, LIN)
+
+    def run(self):
+        self.listvars = set()
+        body = list(self.fn.body)
+        main = None
+        for i, s in enumerate(body):
+            if isinstance(s, ast.While) or (isinstance(s, ast.For) and isinstance(s.target, ast.Name) and s.target.id in MAINLOOP_TARGETS):
+                main = i
+        self.params()
+
+        def attrs_as_outputs():
+            # a method that stores arrays on the object (fit): the stored attributes are outputs as well
+            names = {n for n in self.defined if n.startswith("self.")} | {n for n in (self.rename or {}) if n.startswith("self.")}
+            for nm in sorted(names):
+                c = self.rd(nm)
+                if c is None or idxlike(c, self.intvars, self.weakvars) or weaklike(c, self.weakvars):
+                    continue
+                r = "%attr:" + nm
+                self.out.append((r, c)); self.defined.add(r)
+                if r not in self.rets:
+                    self.rets.append(r)
+        if main is None:
+            self.block(body)
+            attrs_as_outputs()
+            init, loop = self.out, []
+        else:
+            pre, lp, post = body[:main], body[main], body[main + 1:]
+            self.block(pre)
+
+            def one_pass():
+                if isinstance(lp, ast.For):
+                    self.bind_target(lp.target, lp.iter, symbolic=False)
+                else:
+                    self.ex(lp.test)
+                self.block(lp.body)
+                self.rename = {}
+                self.block(post)
+                attrs_as_outputs()
+                self.rename = None
+            one_pass()
+            init = self.out
+            self.out = []
+            self.seen = {k: v for k, v in self.seen.items() if False}
+            one_pass()
+            loop = self.out
+        return init, loop, list(dict.fromkeys(self.rets))
+
+
+def gallina(e, vid):
+    k = e[0]
+    if k == "leaf":
+        return f"(Leaf {e[1]})"
+    if k == "var":
+        return f"(Var {vid(e[1])})"
+    if k in ("op", "div", "into"):
+        c = {"op": "Op", "div": "Div", "into": "Into"}[k]
+        b = e[2] if e[2] is not None and e[2][0] not in ("dtypeof", "dtconst") else PYI
+        a = e[1] if e[1] is not None and e[1][0] not in ("dtypeof", "dtconst") else PYI
+        return f"({c} {gallina(a, vid)} {gallina(b, vid)})"
+    if k in ("tofloat", "real"):
+        return f"({'ToFloat' if k == 'tofloat' else 'RealOf'} {gallina(e[1], vid)})"
+    raise KeyError(k)
+
+
+def translate(fn_node, qual):
+    tr = Translator(fn_node, qual)
+    init, loop, rets = tr.run()
+    ids = {}
+
+    def vid(name):
+        if name not in ids:
+            ids[name] = len(ids)
+        return ids[name]
+    gi = "[" + "; ".join(f"({vid(n)}, {gallina(e, vid)})" for n, e in init) + "]"
+    gl = "[" + "; ".join(f"({vid(n)}, {gallina(e, vid)})" for n, e in loop) + "]"
+    go = "[" + "; ".join(f'("*", (Var {vid(r)}))' for r in rets) + "]"
+    return dict(qual=qual, prog=f"(mkprog {gi} {gl} {go})", n_init=len(init), n_loop=len(loop), n_out=len(rets), n_vars=len(ids), notes=tr.notes,
+                leaves=sorted({x for _, e in init + loop for x in leaves_of(e)}))
+
+
+def leaves_of(e):
+    if e is None:
+        return []
+    if e[0] == "leaf":
+        return [e[1]]
+    out = []
+    for x in e[1:]:
+        if isinstance(x, tuple):
+            out += leaves_of(x)
+    return out
+
+
+EXTRACT_SKIP_DIRS = ("tests", "datasets", "plugins", "sparse", "utils", "__pycache__")
+EXTRACT_SKIP_FILES = ("testing.py", "conftest.py", "_factorized_tensor.py", "base_tenalg.py", "backend_manager.py")
+EXTRACT_BASELINE = "_extracted_levels.json"
+
+
+def extract_functions(repo):
+    """(qualified name, ast.FunctionDef) for every module-level function and every method of the library (backend: core.py only)"""
+    import os
+    root = os.path.join(repo, "tensorly")
+    for d, dirs, fs in sorted(os.walk(root)):
+        if any(x in d.split(os.sep) for x in EXTRACT_SKIP_DIRS):
+            continue
+        rel = os.path.relpath(d, root)
+        for f in sorted(fs):
+            if not f.endswith(".py") or f in EXTRACT_SKIP_FILES:
+                continue
+            if rel.startswith("backend") and f != "core.py":
+                continue
+            pth = os.path.join(d, f)
+            try:
+                tree = ast.parse(open(pth).read())
+            except SyntaxError:
+                continue
+            mod = os.path.relpath(pth, repo)[:-3].replace(os.sep, ".")
+            for node in tree.body:
+                if isinstance(node, ast.FunctionDef):
+                    yield mod + "." + node.name, node
+                elif isinstance(node, ast.ClassDef):
+                    for m in node.body:
+                        if isinstance(m, ast.FunctionDef) and not (m.name.startswith("__") and m.name != "__init__"):
+                            yield mod + "." + node.name + "." + m.name, m
+
+
+def extract_all(repo):
+    """{qual: translation dict | {'error': ...}} for every function that returns at least one array-valued expression"""
+    import warnings
+    out = {}
+    with warnings.catch_warnings():
+        warnings.simplefilter("ignore")
+        for q, node in extract_functions(repo):
+            try:
+                r = translate(node, q)
+            except Unsupported as e:
+                out[q] = {"error": "unsupported construct: " + str(e)}
+                continue
+            except RecursionError:
+                out[q] = {"error": "recursion limit"}
+                continue
+            if r["n_out"]:
+                out[q] = r
+    return out
+
+
+def extract_diagnose(repo, qual, mu="B"):
+    """Python mirror of prog_ok2 for tau = float32: the statements whose value leaves the precision class (index-valued ones omitted)"""
+    for q, node in extract_functions(repo):
+        if q == qual:
+            break
+    else:
+        return ["function not found"]
+    tr = Translator(node, qual)
+    init, loop, rets = tr.run()
+    cls = {"LIn": "F32", "LMask": mu, "LBare": "F64", "LPyI": "WI", "LPyF": "WF", "LPyC": "WC", "(LConst I64)": "I64", "(LConst B)": "B",
+           "(LConst F64)": "F64", "(LConst F32)": "F32", "(LConst C128)": "C128", "(LConst C64)": "C64"}
+
+    def ok(e, D, S):
+        k = e[0]
+        if k == "leaf":
+            d_ = cls.get(e[1], "?")
+            return d_ in ("F32", "WI", "WF"), d_ == "F32"
+        if k == "var":
+            return e[1] in D, e[1] in S
+        if k in ("op", "div"):
+            a = ok(e[1], D, S)
+            b = ok(e[2], D, S) if e[2] is not None and e[2][0] not in ("dtypeof", "dtconst") else (True, False)
+            return a[0] and b[0], a[1] or b[1]
+        return ok(e[1], D, S)
+    D, S, bad = set(), set(), []
+    for phase, blk in (("init", init), ("loop", loop)):
+        for nm, e in blk:
+            o, st = ok(e, D, S)
+            (D.add if o else D.discard)(nm)
+            (S.add if (o and st) else S.discard)(nm)
+            if not o and not idxlike(e, tr.intvars, tr.weakvars) and not nm.startswith("%"):
+                bad.append(f"{phase}: {nm} <- {str(e)[:160]}")
+    for r in rets:
+        if r not in D or r not in S:
+            bad.append(f"output {r}: in class={r in D} strong={r in S}")
+    return bad[:12]
+
+
+def extract_cases(repo, levels_wanted):
+    """cases for run_case_shards: levels_wanted(qual) -> list of levels to check; returns (cases, meta, info)"""
+    ex = extract_all(repo)
+    cases, meta, errors = [], [], {}
+    for q in sorted(ex):
+        r = ex[q]
+        if "error" in r:
+            errors[q] = r["error"]
+            continue
+        for lvl in levels_wanted(q):
+            cid = len(cases)
+            cases.append(f"(CExt {cid}%nat {lvl}%nat {r['prog']})")
+            meta.append((q, lvl, r))
+    return cases, meta, errors, ex
+
+
+def load_extract_baseline():
+    import json, os
+    p = os.path.join(C.VERIF, "corpus", "C18", EXTRACT_BASELINE)
+    return json.load(open(p))["levels"] if os.path.exists(p) else {}
+
+
+def write_extract_baseline(repo=None):
+    """measures, on the given tree, at which level every extracted function is certified and stores it"""
+    import json, os
+    repo = repo or C.REPO
+    cases, meta, errors, ex = extract_cases(repo, lambda q: [2, 1])
+    failing, n_eval, broken = C.run_case_shards("C18", HEADER, "case", cases, shard=40, tag="extbase")
+    assert not broken and n_eval == len(cases), broken
+    levels = {}
+    for i, (q, lvl, r) in enumerate(meta):
+        if i not in failing:
+            levels[q] = max(levels.get(q, 0), lvl)
+        else:
+            levels.setdefault(q, 0)
+    head, dirty = C.repo_head()
+    json.dump({"repo_head": head, "levels": levels, "untranslatable": errors,
+               "comment": "level 2: extracted dtype program certified for every mask dtype; 1: for a mask of the data's dtype; 0: not certified "
+                          "(documented float64 output or translator imprecision)"},
+              open(os.path.join(C.VERIF, "corpus", "C18", EXTRACT_BASELINE), "w"), indent=1, sort_keys=True)
+    return levels, errors
+
+# ---- self-test of the translator: random straight-line functions, executed for real and translated
+TR_TEMPLATES = [
+    "{v} = tl.zeros((3,), **tl.context({a}))", "{v} = tl.zeros((3,))", "{v} = tl.ones((3,), **tl.context({a}))", "{v} = tl.ones(3)",
+    "{v} = tl.tensor({a}, **tl.context({b}))", "{v} = tl.tensor([1.0, 2.0, 3.0])", "{v} = tl.tensor([1, 2, 3])", "{v} = tl.tensor([1.0, 2.0, 3.0], **tl.context({a}))",
+    "{v} = tl.tensor({a})", "{v} = tl.zeros_like({a})", "{v} = tl.copy({a})",
+    "{v} = {a} * {b}", "{v} = {a} + 2", "{v} = {a} / {b}", "{v} = {a} / 3", "{v} = 1.5 * {a}", "{v} = {a} - {b} * 0.5", "{v} = {a} ** 2",
+    "{v} = tl.abs({a})", "{v} = tl.sqrt(tl.abs({a}))", "{v} = tl.norm({a}) * {b}", "{v} = tl.sum({a}) * {b}", "{v} = tl.mean({a}, axis=0) + {b}",
+    "{v} = {a} * mask", "{v} = {a} * (1 - mask)", "{v} = {a} * mask + {b} * (1 - mask)", "{v} = {a} * tl.tensor(mask, **tl.context({b}))",
+    "{v} = tl.where({a} > 0.5, {a}, {b})", "{v} = tl.where(mask > 0, {a}, 0)", "{v} = tl.index_update(tl.copy({a}), tl.index[0:2], {b}[0:2])",
+    "{v} = tl.copy({a})\n    {v}[1:] = {b}[1:]", "{v} = {a} + np.float64(2.0)", "{v} = {a} * float(tl.sum({b}))", "{v} = tl.clip({a}, a_min=0)",
+    "{v} = tl.clip({a}, a_min=tl.eps({b}.dtype))", "{v} = tl.dot({a}, {b}) * {a}", "{v} = tl.eps({a}.dtype) * {b}", "{v} = {a} * tl.argmax({b})",
+    "{v} = tl.concatenate([{a}, {b}])[:3]", "{v} = tl.stack([{a}, {b}])[0]", "{v} = tl.sign({a}) * tl.clip(tl.abs({a}) - 0.1, a_min=0)",
+    "{v} = {a}.astype({b}.dtype)", "{v} = tl.tensor(np.random.RandomState(0).random_sample(3), **tl.context({a}))", "{v} = tl.tensor(np.random.RandomState(0).random_sample(3))",
+    "{v} = tl.cumsum({a}, axis=0) / tl.tensor(tl.arange(3) + 1, **tl.context({b}))", "{v} = tl.cumsum({a}, axis=0) / (tl.arange(3) + 1)",
+    "{v} = tl.transpose(tl.reshape({a}, (3, 1)))[0] + {b}", "{v} = tl.max({a}) * {b}", "{v} = tl.sort({a}, axis=0) + tl.flip({b}, axis=0)",
+]
+
+
+def translator_selftest_cases(rng, n):
+    """n random straight-line functions f(X, W, mask) built from TR_TEMPLATES; each is executed with float32 / float64 data and
+    bool / int64 / float32 / float64 masks, and translated by the ast translator; returns (cases, meta)"""
+    import tensorly as tl
+    cases, meta = [], []
+    for k in range(n):
+        names = ["X", "W"]
+        lines = []
+        for j in range(rng.randrange(3, 8)):
+            v = f"v{j}"
+            tpl = rng.choice(TR_TEMPLATES)
+            lines.append("    " + tpl.format(v=v, a=rng.choice(names), b=rng.choice(names)))
+            names.append(v)
+        outs = rng.sample(names[2:], min(2, len(names) - 2))
+        src = "def f(X, W, mask):\n" + "\n".join(lines) + "\n    return " + ", ".join(outs) + ("," if len(outs) == 1 else "") + "\n"
+        node = ast.parse(src).body[0]
+        try:
+            tr = translate(node, f"selftest{k}")
+        except Unsupported as e:
+            meta.append(("untranslatable", src, str(e)))
+            continue
+        if tr["n_out"] != len(outs):
+            continue      # an output the translator classifies as index / scalar valued: outside the self-test
+        ns = {"tl": tl, "np": np}
+        exec(compile(src, f"<selftest{k}>", "exec"), ns)
+        for tdt in ("float32", "float64", "complex64"):
+            for mdt in (("bool", "int64", "float32", "float64") if tdt != "complex64" else ("bool", "float64")):
+                rs = np.random.RandomState(k)
+                X, W = (rs.rand(3) + (1j * rs.rand(3) if tdt == "complex64" else 0)).astype(tdt), (rs.rand(3) + (1j * rs.rand(3) if tdt == "complex64" else 0)).astype(tdt)
+                m = (rs.rand(3) > 0.4).astype(mdt)
+                st, val = C.call_impl(ns["f"], X, W, m, timeout=20)
+                if st != "ok":
+                    continue
+                obs = [classify_value(x) for x in val]
+                ol = "[" + "; ".join(("Some " + o) if o in ALL_DT else "None" for o in obs) + "]"
+                cid = len(cases)
+                cases.append(f"(CTr {cid}%nat {COQ_DT[tdt]} {COQ_DT[mdt]} {tr['prog']} {ol})")
+                meta.append(("case", src, tdt, mdt, obs))
+    return cases, meta
+
 
 # ============================================================================= the check
 HEADER = """From Coq Require Import String Bool List. Import ListNotations. Open Scope string_scope.
@@ -920,6 +1869,8 @@ def run(chk):
     import glob, json, os
     byname = {t["name"]: t for t in T}
     for fn in sorted(glob.glob(os.path.join(C.VERIF, "corpus", "C18", "*.json"))):
+        if os.path.basename(fn).startswith("_"):
+            continue
         item = json.load(open(fn))
         if "table" in item:
             kind, a, b = item["table"]
@@ -1009,7 +1960,60 @@ def run(chk):
                        "(+complex64/complex128 where the entry point supports complex data) x mask dtype in {none, same, bool, int64, float64} where a mask is accepted "
                        "(quick: one data seed; thorough: three); (c) " + str(n_rand) + " random option combinations (init x mask dtype x normalise x line search x sparsity x l2 x "
                        "orthogonalise x errors x constraint kind x order/shape/rank x dtype) of the entry points with transcribed skeletons, generated from the check seed; "
-                       "every array and NumPy scalar of the returned structure is inspected; distinct key = (configuration, data dtype, mask kind); all are non-trivial")
+                       "every array and NumPy scalar of the returned structure is inspected; distinct key = (configuration, data dtype, mask kind); all are non-trivial; "
+                       "(d) every library function with an array-valued return (about 190: decomposition/, tenalg/, solvers/, regression/, metrics/, random/, *_tensor.py, backend/core.py, "
+                       "contrib/decomposition) is translated from its source (ast) into a dtype program and checked inside Coq for 4 contexts x 6 mask dtypes (level 2) or 4 contexts (level 1); "
+                       "(e) translator self-test: 20 (quick) / 150 (thorough) random straight-line functions over 50 statement templates, each executed with {float32,float64} data x "
+                       "{bool,int64,float32,float64} masks and compared exactly with the dtypes its translation evaluates to inside Coq")
+    # ---- 3b. self-test of the ast translator against real executions (random straight-line functions)
+    tcases, tmeta = translator_selftest_cases(random.Random(f"C18-tr-{chk.seed}"), 20 if chk.tier == "quick" else 150)
+    tfailing, t_eval, tbroken = C.run_case_shards("C18", HEADER, "case", tcases, shard=300, tag="trself")
+    n_eval += t_eval
+    tcm = [m for m in tmeta if m[0] == "case"]
+    for b in tbroken:
+        chk.broken.append({"what": "correspondence corr:C18 (translator self-test) shard not evaluated", "detail": b})
+    for m in tcm:
+        chk.count(key=("translator-selftest", m[1], m[2], m[3]), nontrivial=True); chk.hist("stream", "translator self-test")
+    seen_src = set()
+    for i in sorted(tfailing):
+        _, src, tdt, mdt, obs = tcm[i]
+        if src in seen_src:
+            continue
+        seen_src.add(src)
+        chk.disagreement("corr:C18 translator self-test: the dtype program translated from a random straight-line function disagrees with its real execution",
+                         {"source": src, "data_dtype": tdt, "mask_dtype": mdt, "observed": obs})
+    n_untr = sum(1 for m in tmeta if m[0] == "untranslatable")
+    if n_untr:
+        chk.notes.append(f"translator self-test: {n_untr} generated functions were not translatable")
+    # ---- 4. source-level tie: dtype programs regenerated from the Python source of this tree, checked inside Coq
+    base = load_extract_baseline()
+    xcases, xmeta, xerrors, ex = extract_cases(C.REPO, lambda q: [base[q]] if base.get(q, 0) >= 1 else ([1] if q not in base else []))
+    xfailing, x_eval, xbroken = C.run_case_shards("C18", HEADER, "case", xcases, shard=40, tag="ext")
+    chk.checker_cmds.append("coqc (vm_compute) on generated build/cases/C18/ext_*/*.v: Corr.C18.failing on CExt cases (ext_ok_any / ext_ok_same)")
+    n_eval += x_eval
+    chk.cov["traces_validated_against_impl"] = n_eval
+    for b in xbroken:
+        chk.broken.append({"what": "correspondence corr:C18 (extracted programs) shard not evaluated", "detail": b})
+    n_new, n_cert = 0, 0
+    for i, (q, lvl, r) in enumerate(xmeta):
+        chk.count(key=("extracted", q), nontrivial=True)
+        chk.hist("stream", "extracted function")
+        if q not in base:
+            n_new += 1
+            chk.notes.append(f"function {q} is not in the extraction baseline: " + ("certified at level 1" if i not in xfailing else "NOT certified (information only)"))
+            continue
+        if i in xfailing:
+            chk.disagreement("corr:C18 dtype program extracted from the source of " + q + " no longer passes the program check (Model/Dtype.v prog_ok2) at level "
+                             + str(lvl) + " (2 = every mask dtype, 1 = mask of the data's dtype)",
+                             {"function": q, "level": lvl, "leaves": r["leaves"], "statements": [r["n_init"], r["n_loop"]],
+                              "offending_statements_for_float32": extract_diagnose(C.REPO, q, "B" if lvl == 2 else "F32")})
+        else:
+            n_cert += 1
+    gone = sorted(q for q, l in base.items() if l >= 1 and q not in ex)
+    chk.hist("extraction", f"certified {n_cert}")
+    chk.notes.append(f"source-level extraction: {len(ex)} functions with array outputs translated, {n_cert} certified at their baseline level, "
+                     f"{sum(1 for q in ex if base.get(q) == 0)} uncertified at baseline (documented float64 output / translator imprecision), {n_new} new, "
+                     f"{len(xerrors)} untranslatable {sorted(xerrors)[:5]}, {len(gone)} baseline functions no longer present {gone[:5]}")
     if n_skipped:
         chk.notes.append(f"{n_skipped} configuration runs hit the per-case timeout and were skipped (not a verdict)")
     for b in broken:
@@ -1026,7 +2030,8 @@ def run(chk):
                        "observed output dtypes of this run's configurations",
                        "a mask is an indicator, not data: for every mask dtype (bool, int64, float of another precision) the expected dtype is the data's",
                        "real-valued-by-definition outputs (errors, norms, singular values, |weights|) of complex input are expected in the real type of the same precision"]
-    chk.trusted = ["NumPy's dtype attribute of the returned arrays", "table of entry-point configurations (harness/props/C18.py) as the universe of 'public entry points'"]
+    chk.trusted = ["the ast -> dtype-program translator in harness/props/C18.py (call table, join of alternatives, loop unrolling, modular summaries of callees)",
+                   "NumPy's dtype attribute of the returned arrays", "table of entry-point configurations (harness/props/C18.py) as the universe of 'public entry points'"]
     _install_known_loader()
     return chk.finish(CLASSIFIERS)
 
@@ -1034,6 +2039,16 @@ def run(chk):
 def replay(payload):
     """re-run a stored failing configuration against the current implementation; 1 = still failing"""
     if payload.get("kind") != "failing-input":
+        fns = [(d["case"]["function"], d["case"].get("level", 2)) for d in payload.get("disagreeing_cases", []) if isinstance(d.get("case"), dict) and "function" in d["case"]]
+        if fns:
+            # broken source-level tie: re-extract the named functions from the current tree and re-check them inside Coq
+            want = dict(fns)
+            xcases, xmeta, xerrors, ex = extract_cases(C.REPO, lambda q: [want[q]] if q in want else [])
+            failing, n_eval, broken = C.run_case_shards("C18", HEADER, "case", xcases, shard=40, tag="extreplay")
+            for i, (q, lvl, r) in enumerate(xmeta):
+                print("replay: extracted program of", q, "level", lvl, "->", "still NOT certified" if i in failing else "certified now",
+                      extract_diagnose(C.REPO, q, "B" if lvl == 2 else "F32") if i in failing else "")
+            return 1 if (failing or broken or len(xmeta) < len(want)) else 0
         print("replay file names a broken theorem/correspondence, not an input:", payload.get("theorem_or_correspondence"))
         return 1
     inp = payload["inputs"]
